@@ -172,6 +172,16 @@ def choke_point_rules(prog, res: Result):
                     return None
                 return ("alternative instance creation path bypasses the constructor", repr(v))
             _CR(prog, res, max_depth=8).run("R05.1", fi, f"{cname}.{meth} leads back through the constructor", setup, judge)
+    # functions reached from the metaclass's unit creators (today: none besides themselves)
+    from ..anchors import unit_creator, ref_unit_creator, _direct_callees
+    unit_making, todo_ = [], [(unit_creator(prog), 0), (ref_unit_creator(prog), 0)]
+    while todo_:
+        g_, d_ = todo_.pop(0)
+        if any(g_ is x for x in unit_making):
+            continue
+        unit_making.append(g_)
+        if d_ < 3:
+            todo_.extend((h_, d_ + 1) for h_ in _direct_callees(prog, g_) if h_.cls is None or h_.cls.name in ("QuantityMeta", "MoneyMeta"))
     raw = []
     for fi in prog.all_functions():
         for nd in ast.walk(fi.node):
@@ -196,6 +206,10 @@ def choke_point_rules(prog, res: Result):
                             srcs.add(src_of(a2.value))
                 ok = any("_unit_cls" in x or x in ("Unit", "Currency") for x in srcs)
                 why = f"raw object creation of {sorted(srcs)}"
+        elif any(fi is g for g in unit_making):
+            # a helper the unit creators hand the allocation to: it allocates what they allocate (units)
+            ok = s in ("object", "super()")
+            why = "allocation on behalf of the unit creator"
         else:
             ok = False
             why = "raw instance creation outside the constructors"
